@@ -15,6 +15,7 @@ CONSTANTS
   CancelCalls = {}
   EnvTClose = FALSE
   Coarse = TRUE
+  Eager = FALSE
   WithHist = FALSE
 VIEW ViewNoHist
 INVARIANTS AttemptsBounded
